@@ -52,7 +52,7 @@ type replay struct {
 
 func contextsFor(cs *Case, idx int, thorough bool) []ctxSpec {
 	all := []int{kTip, kReorg, kDeferred, kOrphan, kTemplate, kReopen, kFork, kForkBad, kReopenReorg, kReopenDeferred, kOrphanReorg,
-		kHeaderFirst, kHeaderFirstReorg, kChildAfter, kReorgDeep}
+		kHeaderFirst, kHeaderFirstReorg, kChildAfter, kReorgDeep, kRestore, kReopenRestore}
 	var out []ctxSpec
 	if thorough {
 		for _, k := range all {
@@ -61,7 +61,7 @@ func contextsFor(cs *Case, idx int, thorough bool) []ctxSpec {
 		return out
 	}
 	if cs.Big {
-		return []ctxSpec{{kTip, bigCache}, {kReorg, 0}, {kTemplate, bigCache}}
+		return []ctxSpec{{kTip, bigCache}, {kReorg, 0}, {kTemplate, bigCache}, {kRestore, 0}}
 	}
 	// quick: every context once; the cache size alternates with the case so that
 	// both sizes meet every context kind across the catalogue (thorough: the full product)
@@ -74,6 +74,7 @@ func contextsFor(cs *Case, idx int, thorough bool) []ctxSpec {
 		{kDeferred, b}, {kOrphan, a}, {kTemplate, b}, {kReopen, a},
 		{kFork, b}, {kForkBad, a}, {kReopenReorg, b}, {kReopenDeferred, a}, {kOrphanReorg, b},
 		{kHeaderFirst, a}, {kHeaderFirstReorg, b}, {kChildAfter, a}, {kReorgDeep, b},
+		{kRestore, a}, {kRestore, b}, {kReopenRestore, b},
 	}
 }
 
@@ -147,7 +148,7 @@ func main() {
 			labelErr.Store(cs.Key() + ": " + msg)
 			return
 		}
-		pl := mkPlan(cs, i)
+		pl := mkPlan(cs, i, st[cs.ParentH])
 		plans[i] = pl
 		// filler blocks must be valid (UBad: exactly the coinbase value)
 		chk := func(b *lab.Blk, on *refblock.State, want []string) *refblock.State {
@@ -171,6 +172,15 @@ func main() {
 			su = chk(u, su, nil)
 		}
 		chk(pl.UBad, su, []string{"cb-value"})
+		sR1 := chk(pl.R1, st[cs.ParentH], nil)
+		chk(pl.R2, sR1, nil)
+		if cs.Valid() {
+			sC := st[cs.ParentH].Clone()
+			sC.Apply(cs.Cand.Msg)
+			sD := sC.Clone()
+			sD.Apply(pl.D.Msg)
+			chk(pl.E, sD, nil)
+		}
 		if len(pl.X) == 3 {
 			sx := st[cs.ParentH-3]
 			for _, x := range pl.X {
